@@ -304,7 +304,10 @@ func TestVerif_C15_Conc(t *testing.T) {
 		perPub := rapid.IntRange(1, 200).Draw(t, "eventsPerPublisher")
 		nSub := rapid.IntRange(1, 6).Draw(t, "subscribers")
 		nLate := rapid.IntRange(0, 2).Draw(t, "lateSubscribers")
-		type plan struct{ delayEvery, cloneAt, closeAt int; stall bool }
+		type plan struct {
+			delayEvery, cloneAt, closeAt int
+			stall                        bool
+		}
 		plans := make([]plan, nSub+nLate)
 		total := nPub * perPub
 		for i := range plans {
